@@ -31,3 +31,36 @@ if a in s:
     s = s[: s.index(a) + len(a)] + "\n" + tbl + "\n" + s[s.index(b_):]
     open(p, "w").write(s)
 print(len(rows), "rows")
+
+# ---- built-in mutants (tools/mutants.py): last complete sweep, stored in seeded/mutants-results.json
+mr = os.path.join(VERIF, "seeded", "mutants-results.json")
+if os.path.exists(mr):
+    res = json.load(open(mr))
+    by = {}
+    for x in res:
+        by.setdefault(x["mutant"], []).append(x)
+    rows = []
+    for name, xs in by.items():
+        cells = []
+        first = ""
+        for x in xs:
+            if x.get("error"):
+                cells.append("pattern not found")
+                continue
+            v = {1: "caught", 0: "silent", 2: "harness-error"}.get(x["exit"], "?")
+            if x["exit"] == 0 and x.get("expected"):
+                v = "MISSED"
+            cells.append(f"{x['check']} {v}" + ("" if x.get("expected") else " (not expected to be a violation)"))
+            if not first:
+                for ln in x.get("lines", []):
+                    if "violation class" in ln:
+                        first = re.sub(r"\s+", " ", ln.split("violation class", 1)[1])[:110]
+                        break
+        rows.append(f"| {name} | {', '.join(cells)} | {first} |")
+    tbl = "| mutant | quick checks run -> verdict | first violation class reported |\n|---|---|---|\n" + "\n".join(rows)
+    s = open(p).read()
+    a, b_ = "<!-- MUTANTS-TABLE-BEGIN -->", "<!-- MUTANTS-TABLE-END -->"
+    if a in s:
+        s = s[: s.index(a) + len(a)] + "\n" + tbl + "\n" + s[s.index(b_):]
+        open(p, "w").write(s)
+    print(len(rows), "mutants")
